@@ -103,7 +103,16 @@ Qed.
 Ltac src_rew :=
   match goal with
   | H : usub ?a ?b = Ok ?c |- _ => apply usub_Ok in H; let H1 := fresh in destruct H as [H1 ->]
+  | H : negb _ = false |- _ => apply negb_false_iff in H
+  | H : negb _ = true |- _ => apply negb_true_iff in H
+  | H : (_ =? _) = false |- _ => apply Nat.eqb_neq in H
+  | H : (_ =? _) = true |- _ => apply Nat.eqb_eq in H
+  | H : (_ <=? _) = false |- _ => apply Nat.leb_gt in H
+  | H : (_ <=? _) = true |- _ => apply Nat.leb_le in H
+  | H : (_ <? _) = false |- _ => apply Nat.ltb_ge in H
+  | H : (_ <? _) = true |- _ => apply Nat.ltb_lt in H
   | H : ?b <= ?a |- context [usub ?a ?b] => rewrite (usub_ok a b H); cbn [bind]
+  | |- context [usub ?a ?b] => rewrite (usub_ok a b) by lia; cbn [bind]
   | H : ?e = Ok ?x |- context [bind ?e _] => rewrite H; cbn [bind]
   end.
 
@@ -116,6 +125,7 @@ Ltac src_step :=
   | |- for_ ?lo ?hi _ ?s = for_ ?lo ?hi _ ?s => apply for_ext; intros ? ? ?
   | |- for_rev ?lo ?hi _ ?s = for_rev ?lo ?hi _ ?s => apply for_rev_ext; intros ? ? ?
   | |- (if ?c then _ else _) = (if ?c then _ else _) => destruct c eqn:?
+  | |- context [bind (if ?c then _ else _) _] => destruct c eqn:?; cbn [bind]
   | |- context [match ?p with pair _ _ => _ end] => is_var p; destruct p
   | |- context [fst ?p] => is_var p; destruct p; cbn [fst snd]
   | |- context [snd ?p] => is_var p; destruct p; cbn [fst snd]
